@@ -732,6 +732,21 @@ theorem C15_fact_truncate_copies : Facts.xform_truncate_builds_new_value = some 
 theorem C15_fact_star_needs_boundary : Facts.xform_star_requires_far_boundary = some true := by decide
 theorem C15_fact_slice_default_end : Facts.tmpl_slice_default_end = ["math.MaxInt32"] := by decide
 
+/-! ### translated condition (Tie B, semantic form) -/
+
+theorem C15_fact_drop_rule_found : Facts.gen_drop_rule_found = true := by decide
+/-- the sampled-drop decision translated from `tdrop.go` is the model's, for all counter values and rates -/
+theorem C15_gen_drop_rule (m d r : Nat) : Facts.gen_drop_rule m d r = (Xform.sampleDrop r (m, d)).1 := by
+  have h : ((100 : Int) * (d : Int)) = ((100 * d : Nat) : Int) := by simp
+  unfold Facts.gen_drop_rule Xform.sampleDrop
+  rw [h, Int.tdiv_natCast]
+  generalize 100 * d / m = q
+  by_cases h1 : m > 0 ∧ q < r
+  · simp only [h1, and_self, if_true]
+    simp; omega
+  · simp only [h1, if_false]
+    simp; omega
+
 /-! ### non-vacuity -/
 
 example : (sampleRun 33 10) = (10, 3) := by decide
